@@ -44,6 +44,21 @@ fn settings(prelude: bool) -> Settings {
 pub fn program_set(tier: &str) -> Vec<(String, String, bool)> {
     let quick = tier == "quick";
     let mut out = Vec::new();
+    // run time failures whose diagnostics carry source positions (stack traces with line numbers):
+    // same function names, the failing call on different lines; first so that they are part of
+    // the core used for the histories
+    for (i, src) in [
+        "let { error } = import! std.prim\nlet id x = x\n\n\nlet f x = id x\nlet g x =\n    let y = f x\n    if y #Int< 10 then\n        error \"boom\"\n    else y\ng 1",
+        "let { error } = import! std.prim\nlet g x = error \"boom\"\ng 1",
+        "let { error } = import! std.prim\nlet g x =\n    if x #Int< 10 then\n\n\n\n        error \"deep\"\n    else x\nlet h x =\n    let r = g x\n    r #Int+ 1\nh 2",
+        "let id x = x\n\n\n\n\n\nlet g x = id x\ng 1",
+        "let { error } = import! std.prim\ntype V = | A | C Int V\nlet g v =\n    match v with\n    | C x _ -> x\nlet h _ =\n\n    g A\nh ()",
+    ]
+    .iter()
+    .enumerate()
+    {
+        out.push((format!("trace{}", i), src.to_string(), false));
+    }
     let mut g = Gen::new(Cfg::standard());
     // well typed
     for n in 1..=(if quick { 4 } else { 5 }) {
